@@ -36,6 +36,10 @@ def tables():
     L.append('')
     # order of the named groups of term_re = order of the alternatives (group INDEX is shared by the last three)
     groups = sorted(parser.term_re.groupindex.items(), key=lambda kv: kv[1])
+    import sys as _sys
+    L.append('/-- `sys.get_int_max_str_digits()`: `int(str)` raises ValueError beyond this many digits (0 = no limit). -/')
+    L.append(f'def intMaxStrDigits : Nat := {_sys.get_int_max_str_digits() if hasattr(_sys, "get_int_max_str_digits") else 0}')
+    L.append('')
     L.append('/-- Named groups of `term_re` in pattern order. -/')
     L.append('def termGroups : List String := [' + ', '.join('"' + g + '"' for g, _ in groups) + ']')
     return L
